@@ -8,7 +8,8 @@ sys.path.insert(0, "/verif")
 sys.path.insert(0, "/repo")
 from pyvc import oblig          # noqa
 sys.path.insert(0, "/verif/tools")
-from gen_seeded_meta import ROUND2      # noqa
+from gen_seeded_meta import ROUND2, ROUND3      # noqa
+ROUND2 = dict(ROUND2, **ROUND3)
 
 kinds = {}
 for i in range(1, 21):
